@@ -543,13 +543,10 @@ def removed_before(A, run, w):
     return False
 
 
-# =============================================================================================
-@prop("C07")
-def check_C07(A, R, tier):
+def rule_failure_propagation(A, R, rule1, rule2):
     C = A.classes()
     K = kinds(A)
     H = A.handler_runs()
-    T = A.transitions()
     UF = C["UpstreamFailed"]
     # R7.1 / R7.2: whoever is written Failed / UpstreamFailed tells every direct downstream
     n = 0
@@ -582,10 +579,21 @@ def check_C07(A, R, tier):
                             if (outer is not None and outer in r) or ("return" in r) or (set(returns_of(body)) & r):
                                 ok, why = False, "the handler can end after the state write without visiting the downstreams"
                         break
-                R.ob("R7.1" if label == "failure" else "R7.2",
+                R.ob(rule1 if label == "failure" else rule2,
                      "%s | %s handler | %s -> %s | every direct downstream is sent the upstream-failure signal"
                      % (short(w["fn"]), A.kname(hk), A.snames(w["frm"]), A.snames(w["to"])), ok, detail=why, site=A.site(w))
-    R.floor("R7.1", "writes of a failed / upstream-failed state by the failure handlers", n, 4)
+    R.floor(rule1, "writes of a failed / upstream-failed state by the failure handlers", n, 4)
+
+
+# =============================================================================================
+@prop("C07")
+def check_C07(A, R, tier):
+    C = A.classes()
+    K = kinds(A)
+    H = A.handler_runs()
+    T = A.transitions()
+    UF = C["UpstreamFailed"]
+    rule_failure_propagation(A, R, "R7.1", "R7.2")
     # R7.3 typestate
     postrun = set(C["Running"])
     changed = True
@@ -1126,6 +1134,9 @@ def check_C10(A, R, tier):
         st = [v for v in r.by_kind("store_self") if v["proj"][:1] == (("f", A.L.start_field),)]
         okst = bool(st) and all(v["value"][0] == "fin" and set(v["value"][2]) == {acc[0]} for v in st)
         R.ob("R10.3", "is_finished advances the start status to the one new_history accepts when all jobs are finished", okst)
+    # R10.4: the history can be assembled for every way a job without output can end (aborted jobs included)
+    from rules_compare import rule_history_after_any_outcome
+    rule_history_after_any_outcome(A, R, "R10.4")
     R.explanation = ("abort_remaining is analysed with all jobs in each concrete state (unfinished ones get exactly the abort signal, "
                      "loops without early exit, the signal processor is run); the abort handler is analysed from each of the %d states: "
                      "it ends in a finished/aborted state, emits nothing, has no error exit, and removes offered jobs from the ready "
@@ -1373,6 +1384,8 @@ def check_C02(A, R, tier):
                          t["ctx"][0] == "handler" and t["ctx"][1] == K["ready"] and is_role(w["key"], "sigtarget"), site=A.site(w))
                 if f in C["Finished"]:
                     R.ob("R2.2", tkey(A, t, f, to) + " | a finished upstream stays finished", to in C["Finished"], site=A.site(w))
+    # R2.4: a failed upstream keeps its dependants from being offered: the failure reaches every direct downstream
+    rule_failure_propagation(A, R, "R2.4", "R2.4")
     # R2.3: get_job_output reports the field the success event stored
     gjo = A.evaluator_fn("get_job_output")
     r = A.joined_run(gjo)
